@@ -464,7 +464,51 @@ def gen_truss(rng):
 
 
 def gen_solvable(rng):
+    s = _gen_solvable(rng)
+    # loads applied exactly on bar ends (they go to the joint / the support): forces and moments,
+    # also on hinged ends and on supported nodes
+    for b in s.bars:
+        if rng.random() < 0.2:
+            if any(l["kind"] == "c" and l["bar"] == b["id"] and l["t"] in (0, 1) for l in s.loads):
+                continue
+            s.loads.append({"kind": "c", "term": rng.choice(["mz", "mz", "fx", "fy"]), "local": rng.random() < 0.5, "bar": b["id"],
+                            "t": Fr(rng.choice([0, 1])), "v": Fr(rng.choice([-1, 1]) * rng.choice([50, 400, 5000]))})
+    return s
+
+
+def gen_guided(rng):
+    """bars whose end links release exactly one translation (guided / sliding connections):
+    a beam between two clamped nodes with a sliding end, optionally continued by a second bar"""
+    s = Structure()
+    std_mat_sec(s, rng)
+    dx, dy, unit = _rat_dir(rng)
+    L = _len_for(rng, unit)
+    x1, y1 = Fr(rng.randint(-20, 20)) * 10, Fr(rng.randint(-20, 20)) * 10
+    s.nodes["n1"] = (x1, y1, (True, True, True))
+    s.nodes["n2"] = (x1 + dx * L, y1 + dy * L, (True, True, True))
+    rel = rng.choice(["slide_x", "slide_y", "only_dx", "only_dy"])
+    l1, l2 = LINKS["rigid"], LINKS[rel]
+    if rng.random() < 0.4:
+        l1, l2 = l2, l1
+    s.bars.append({"id": "b1", "n1": "n1", "l1": l1, "n2": "n2", "l2": l2, "mat": rng.choice(list(s.mats)), "sec": rng.choice(list(s.secs))})
+    s.loads = gen_loads_for_bar(rng, "b1", nmax=3, allow_mz_dist=False)
+    if rng.random() < 0.5:
+        ex, ey, unit2 = _rat_dir(rng)
+        L2 = _len_for(rng, unit2)
+        s.nodes["n3"] = (x1 + dx * L + ex * L2, y1 + dy * L + ey * L2, rng.choice([(True, True, True), (True, True, False)]))
+        s.bars.append({"id": "b2", "n1": "n2", "l1": LINKS[rng.choice(["rigid", "slide_x", "slide_y"])], "n2": "n3", "l2": LINKS["rigid"],
+                       "mat": rng.choice(list(s.mats)), "sec": rng.choice(list(s.secs))})
+        s.loads += gen_loads_for_bar(rng, "b2", nmax=2, allow_mz_dist=False)
+    if not s.loads:
+        s.loads = [{"kind": "d", "term": "fy", "local": True, "bar": "b1", "t0": Fr(0), "v0": Fr(-10), "t1": Fr(1), "v1": Fr(-10)}]
+    s.meta = {"kind": "guided/" + rel}
+    return s
+
+
+def _gen_solvable(rng):
     r = rng.random()
+    if r < 0.1:
+        return gen_guided(rng)
     if r < 0.3:
         return gen_beam(rng)
     if r < 0.55:
